@@ -1,5 +1,6 @@
 //! C03 Power-loss durability of synced data.
 use crate::crash::{self, CrashCase, FaultChoice, PowerState, Rec};
+use crate::hist::Op;
 use crate::gen::Mix;
 use crate::props::c02;
 use crate::runner::{arm_with, Arm, CaseInfo, CheckResult, Ctx, Fail};
@@ -13,6 +14,10 @@ pub struct Case {
     pub fault_seed: u32,
     /// which in-call positions are sampled (k % 3 == phase); positions between calls are always taken
     pub phase: u8,
+    /// crash points are explored only from this op on (the earlier ops only build the state, e.g.
+    /// wrap the log once)
+    #[serde(default)]
+    pub explore_from_op: usize,
 }
 
 fn choices(ps: &PowerState, seed: u64) -> Vec<(FaultChoice, &'static str)> {
@@ -39,6 +44,14 @@ fn choices(ps: &PowerState, seed: u64) -> Vec<(FaultChoice, &'static str)> {
 }
 
 pub fn check(c: &Case) -> CheckResult {
+    check_with(c, false)
+}
+
+pub fn check_all_points(c: &Case) -> CheckResult {
+    check_with(c, true)
+}
+
+fn check_with(c: &Case, all_points: bool) -> CheckResult {
     let rec = crash::record(&c.hist, "C03")?;
     if rec.n_ops == 0 {
         return Ok(CaseInfo::trivial().class("recording_empty"));
@@ -51,18 +64,31 @@ pub fn check(c: &Case) -> CheckResult {
     let mut fails: Vec<Fail> = Vec::new();
     let mut classes: HashSet<&'static str> = HashSet::new();
     let n = rec.recs.len();
+    let mut growth_in_call = false;
     for k in 0..n {
         let r = &rec.recs[k];
+        if matches!(r, Rec::Begin { .. }) {
+            growth_in_call = false;
+        }
+        if let Rec::Truncate { ino, len } = r {
+            let main = plain.names.get(crash::MEM_NAME).copied();
+            if main == Some(*ino) && plain.inodes.get(ino).is_some_and(|b| (*len as usize) > b.len() + 32 * 1024) {
+                growth_in_call = true;
+            }
+        }
         ps.apply(r);
         if !r.is_marker() {
             plain.apply(r);
         }
         let between_calls = matches!(r, Rec::End { .. });
-        let sampled = !r.is_marker() && k % 3 == (c.phase % 3) as usize;
+        let sampled = !r.is_marker() && (all_points || k % 3 == (c.phase % 3) as usize);
         if !(between_calls || sampled) || !ps.has_unsynced() {
             continue;
         }
         let (acked, inflight) = crash::position(&rec.recs, k + 1);
+        if acked.map_or(0, |a| a) + 1 < c.explore_from_op {
+            continue;
+        }
         if acked.is_none() {
             // nothing has returned yet (inside create): nothing is owed; the unopenable half-created
             // file is C02's listed finding
@@ -99,7 +125,11 @@ pub fn check(c: &Case) -> CheckResult {
                     if e == "absent" {
                         fails.push(Fail::new(format!("C03:file-gone-after-power-loss-in-{kind}"), format!("{where_}: ops 0..={a} had returned but the memory file does not exist")));
                     } else {
-                        fails.push(Fail::new(format!("C03:unopenable-after-power-loss-in-{kind}"), format!("{where_}: ops 0..={a} had returned but {e}")));
+                        if growth_in_call {
+                            fails.push(Fail::new("C03:unopenable-after-power-loss-during-in-place-log-growth", format!("{where_}: ops 0..={a} had returned but {e} (the call in flight was growing the embedded log in place)")));
+                        } else {
+                            fails.push(Fail::new(format!("C03:unopenable-after-power-loss-in-{kind}"), format!("{where_}: ops 0..={a} had returned but {e}")));
+                        }
                     }
                 }
                 (Ok(s), _) => {
@@ -157,5 +187,27 @@ pub fn build(ctx: &Ctx) -> Vec<Box<dyn Arm>> {
     ctx.rule("the recorded syscall logs of C02-style histories, replayed under a power-loss model: per inode the image as of its last fsync/fdatasync plus any subset of the writes / truncates issued since (the last survivor optionally torn at one of the 512-byte sector boundaries of the file it crosses), and for the directory the entries as of the last directory fsync plus a prefix of the creates / renames / unlinks issued since; crash points = every point between two API calls (where every returned call is owed) and a third of the points inside calls; per point 6 fault choices (nothing un-synced survives; only directory operations; only data; everything but the last write of each file; 2 generated subsets with tears); oracle: the file opens and shows the reference state after the returned calls or the one including the in-flight call; non-trivial = at least one un-synced operation dropped or torn and at least one call had returned");
     ctx.assume("fsync(fd) makes all earlier writes and the size of that inode durable; un-synced writes may persist in any subset; directory operations persist in order; rename is atomic; fsync of a newly created file also makes its directory entry durable, as on ext4 / xfs / btrfs (the ALICE / CrashMonkey model, weaker than ext4 data=ordered, so a pass is meaningful)");
     let t = ctx.tier;
-    vec![arm_with("power_loss", t.pick(40, 400), 8, t.pick(30, 80), move || (c02::case(t.pick(8, 30)), any::<u32>(), 0u8..3).prop_map(|(hist, fault_seed, phase)| Case { hist, fault_seed, phase }), check)]
+    ctx.rule("arm wrapped_log: a prefix of 5..8 put(8..20 KB)+commit cycles wraps the 64 KiB embedded log at least once (so stale record bytes lie behind the write head), optionally inside begin_batch with puts large enough to grow the log; crash points are then explored only in the 2..4 puts / commits that follow (every point inside them, with the same fault choices, tears included)");
+    let wrapped = move || {
+        (
+            prop::collection::vec((any::<u32>(), 8_000u32..20_000), 5..=8),
+            prop::bool::weighted(0.4),
+            prop::collection::vec(prop_oneof![4 => (any::<u32>(), prop_oneof![1u32..400, 400u32..6000, 20_000u32..45_000]).prop_map(|(seed, len)| Op::Put(crate::hist::PutSpec::simple(crate::gen::Payload::Blob { seed, len, kind: crate::gen::BlobKind::Random }, 9))), 1 => Just(Op::Commit)], 2..=4),
+            any::<u32>(),
+        )
+            .prop_map(|(prefix, batch, tail, fault_seed)| {
+                let mut ops = Vec::new();
+                for (seed, len) in prefix {
+                    ops.push(Op::Put(crate::hist::PutSpec::simple(crate::gen::Payload::Blob { seed, len, kind: crate::gen::BlobKind::Random }, 3)));
+                    ops.push(Op::Commit);
+                }
+                let explore_from_op = ops.len() + 1;
+                if batch {
+                    ops.push(Op::BeginBatch);
+                }
+                ops.extend(tail);
+                Case { hist: CrashCase { dim: 1, ops }, fault_seed, phase: 0, explore_from_op }
+            })
+    };
+    vec![arm_with("wrapped_log", t.pick(16, 250), 8, t.pick(20, 60), wrapped, check_all_points), arm_with("power_loss", t.pick(40, 400), 8, t.pick(30, 80), move || (c02::case(t.pick(8, 30)), any::<u32>(), 0u8..3).prop_map(|(hist, fault_seed, phase)| Case { hist, fault_seed, phase, explore_from_op: 0 }), check)]
 }
